@@ -49,6 +49,12 @@ func genC18(r *rt.Rand, tier string, idx int) *world.Scenario {
 		sc.Class = "deposed-leader-still-answering"
 		sc.Extra = map[string]int64{"deposed": 1, "prewrites": int64(1 + r.Intn(5)), "writes": int64(1 + r.Intn(5))}
 	}
+	if idx%12 == 11 {
+		// the leader crashes and comes back with its identity before its lease has run out: the election record
+		// still names it, its first renewal is slow - until its election callback has run it is not the leader
+		sc.Class = "leader-restarts-with-its-identity"
+		sc.Extra = map[string]int64{"restart_same_identity": 1, "prewrites": int64(1 + r.Intn(5)), "mode": 0}
+	}
 	if r.Chance(0.3) {
 		sc.Inactive = swarmSites(r, "kv.get", "kv.commit")
 	}
@@ -248,7 +254,70 @@ func c18Custom(t *testing.T, sc *world.Scenario, out *Outcome) {
 	}
 	writeKinds := []string{"brain.create", "brain.update", "brain.delete", "brain.compact", "etcd.create", "etcd.update", "etcd.udelete"}
 	finished := false
-	if sc.Extra["deposed"] != 0 {
+	if sc.Extra["restart_same_identity"] != 0 {
+		w.KV.LockKey = []byte(prefix + "/election")
+		preDone := false
+		s.Go("restart-pre", -1, func() {
+			for i := 0; i < int(sc.Extra["prewrites"]); i++ {
+				doWrite(L, []string{"brain.create", "etcd.create", "brain.update"}[i%3])
+				s.Yield("matrix.step")
+			}
+			s.YieldIdle("matrix.idle")
+			preDone = true
+		})
+		s.Settle()
+		for steps := 0; steps < 20000 && !preDone; steps++ {
+			if !s.Step() {
+				s.Advance(250 * time.Millisecond)
+			}
+		}
+		if !preDone {
+			out.Inconclusive = "prewrites did not finish"
+			return
+		}
+		s.CrashNode(L.ID)
+		delete(pn.Servers, L.Addr)
+		// the node's next write of the election record (its first renewal) stays in the engine for a while
+		w.KV.Plan = append(w.KV.Plan, &simkv.Fault{Op: "commit", Class: "lock", Node: len(w.Nodes) + 1, Nth: 1, Effect: "delay:3000"})
+		L2 := w.AddServerAt(pn, proxyOn, L.Addr)
+		curLeader = L2
+		s.Go("restart", -1, func() {
+			until := s.SimTime() + 2500*time.Millisecond
+			for s.SimTime() < until {
+				started := L2.M.Counter("leader.election.success") > 0
+				before := 0
+				for _, e := range w.KV.GT {
+					if e.Node == L2.ID && e.Class == "data" && e.Applied {
+						before++
+					}
+				}
+				kind := writeKinds[s.Rng().Intn(len(writeKinds))]
+				err, _ := doWrite(L2, kind)
+				after := 0
+				for _, e := range w.KV.GT {
+					if e.Node == L2.ID && e.Class == "data" && e.Applied {
+						after++
+					}
+				}
+				if !started && after != before && L2.M.Counter("leader.election.success") == 0 {
+					out.violate(P, "write-applied-before-election", "write-applied-before-election kind="+kind,
+						"the restarted node applied a write (%s, err=%v) before its election callback had run (the election record still names it from its previous life)", kind, err)
+				}
+				if !started {
+					out.probe("request-to-restarted-node-before-its-election")
+					rk := readKinds[s.Rng().Intn(len(readKinds))]
+					r := doRead(L2, "R", rk)
+					if r.err == "" && L2.M.Counter("leader.election.success") == 0 && r.kind != "partitions" {
+						out.violate(P, "read-served-before-election", "read-served-before-election kind="+rk,
+							"the restarted node served %s at revision %d before its election callback had run", rk, r.hdr)
+					}
+				}
+				wake := s.SimTime() + 200*time.Millisecond
+				s.YieldUntil("matrix.sleep", func() bool { return s.SimTime() >= wake })
+			}
+			finished = true
+		})
+	} else if sc.Extra["deposed"] != 0 {
 		w.KV.LockKey = []byte(prefix + "/election")
 		G := w.AddServer(pn, proxyOn)
 		w.Idle(3*time.Second, 4000)
